@@ -70,5 +70,8 @@ func setupHost(ctx context.Context, options *config.Options) (host.Host, *dualdh
 	if err != nil {
 		return nil, nil, err
 	}
+	if simEnabled {
+		simHostReady(h)
+	}
 	return h, ddht, nil
 }
